@@ -5,33 +5,11 @@ from pathlib import Path
 V = Path(__file__).resolve().parent.parent
 ALL = [f"C{i:02d}" for i in range(1, 21)]
 
-# property -> (technique, level text, level note, design ref)
-CHECKS = {
- "C18": ("Lean 4 theorems over a model regenerated from source (py2lean translation of _slice_indices) and hand models of the C++/Python key helpers, tied by an exhaustive correspondence run against the C++ recompiled from the working tree; eager-vs-compiled programs as differential support",
-         "proof: `_slice_indices` (translated from the current source on every run) is proved equal to CPython's slice.indices for all start/stop/step/len; the Python fallbacks of the key helpers, `_parse_batch_size` and the two `_values_list/_items_list` branches are proved equal to their eager/native twins for all inputs. Partial for whole programs: dynamo/inductor are runtime, so compiled==eager on programs is differential evidence.",
-         "Trusted: Lean kernel (axioms propext/Classical.choice/Quot.sound only, audited each run); py2lean translator and hand models Model/Key.lean, Model/Compile.lean, validated each run against the real Python and the freshly compiled C++ on the property's grids; SliceSpec = transcription of CPython, validated against slice.indices. Not modelled: dynamo tracing, inductor.",
-         "DESIGN.md §6 C18"),
- "C13": ("Lean 4 proof over an executable model of _set_tensor_dict/_to_module/_from_module/__enter__/__exit__ (heap of modules with sharing, programs of nested with-blocks with raise), tied to the source by ordered-state correspondence on random module graphs and programs; identity-snapshot and functional_call oracles on real layers",
-         "proof: 14 kernel-checked theorems — swap involution and restoration for all module graphs (shared submodules, tied tensors), restoration after any nesting of with-blocks with an exception at any point, from_module exactness — about a hand-written model that is compared with the library on every run (ordered dict contents after every swap / with-program). Partial: the model has identities, not values: inplace=True values, use_state_dict, custom __setattr__, lazy parameters, TensorDictParams/TensorDictModule wrappers and vmap are covered by the oracle run on real layers only.",
-         "Trusted: Lean kernel (standard axioms, audited each run), the hand transcription Model/C13Module.lean (validated by 3 correspondence streams, ~3600 cases per quick run), torch's Module registration and functional_call as the oracle, the harness. Two recorded findings (known_findings.json: shared submodule given two different sub-tensordicts; inplace with tied tensors); four defects repaired by fix: commits.",
-         "DESIGN.md §6 C13"),
- "C02": ("Lean 4 theorems over a functional-tensor spec of torch (coordinate maps) and a hand transcription of the tensordict shape ops (batch/name arithmetic + the per-leaf torch call + the _fast_apply tree skeleton), tied by a differential correspondence through the compiled driver on provenance (arange) tensordicts, plus a torch-proxy oracle on the real code",
-         "proof: for permute/transpose/squeeze/unsqueeze/flatten/unflatten/view/reshape/expand/unbind/split the per-leaf torch call made by the code is proved to be the op on the batch dims with feature dims untouched (all ranks/sizes/features); batch-size = torch shape and rejects-iff-torch proved for unsqueeze/squeeze/transpose/flatten; names travel, nested padding, key preservation at all depths, split tiling proved. Partial: the remaining batch_eq_torch statements and repeat/gather/stack/cat/masked_select rest on the correspondence + oracle only.",
-         "Trusted: Lean kernel; Model/C02Tensor.lean (our rendering of torch, validated against torch 2.14 each run); Model/C02Td.lean (hand transcription of the repaired code, validated each run against the working tree). Leaves' values are computed by torch. Lazy stacks/tensorclass/out= not modelled. One known finding (oversize split lists accepted, relied on by the repo's own test); nine fix: commits.",
-         "DESIGN.md §6 C02"),
- "C04": ("Lean 4 refinement proof: an executable transcription of TensorDict's mapping code (nested insertion-ordered dict tree; _set_tuple/del_/pop/rename_key_/setdefault/clear/_select/_exclude/update/flatten/unflatten/split_keys/key views) against a plain nested-dict replay; C++ key unraveller proved canonical on every nested-tuple spelling; tied to the source by a per-step correspondence run (state, outcome, 16 views, membership/get) and a Python nested-dict oracle on TensorDict, lazy stacks and tensorclass-held tensordicts",
-         "proof (partial): spelling canonicalisation, nested-dict laws, refinement of get/set/del/membership, pop, rename_key_ (repaired), setdefault, clear and of arbitrary histories of these (run_refines_partial), view membership for all flag combinations are kernel-checked for all inputs. update/select/exclude/flatten/unflatten/split_keys are modelled and differentially checked only.",
-         "Trusted: Lean kernel; hand transcription Model/C04Tree.lean + Model/Key.lean validated each run against the code (~33k comparisons quick); c04_ops.py oracle. Outside the model: keys through NonTensorData (known finding), locking, lazy/persistent containers (oracle only), multi-character separators. View order/duplicates by correspondence only. Two known findings; six fix: commits.",
-         "DESIGN.md §6 C04"),
- "C09": ("Lean 4 theorems (unbounded lists, abstract leaf type and torch op, List.Perm for insertion order) over a hand transcription of _items_list/_values_list, the fused binary/ternary/unary methods, comparison operators, expand_as_right/_maybe_broadcast_other and _cast_reduction; tied each run by a correspondence run through the compiled Lean driver on operands with permuted insertion and nesting order, plus a per-key torch oracle on regular / lazy / tensorclass containers; method tables re-read from the source by ast + reflection",
-         "proof: for all key lists, insertion orders, leaf types and operations, binary / in-place / ternary / unary / comparison results hold under every key the torch op of the entries stored under that key, are invariant under any permutation of either operand, raise KeyError exactly when the key sets differ without a default and follow the documented defaults; tensor operands are indexed by the leading (batch) coordinates only; every reduction front-end yields torch's shape rule on the batch dims with names and feature dims preserved. Partial for lazy stacks / tensorclass containers (oracle-tested; two recorded findings on lazy stacks) and for leaf values (computed by torch on both sides).",
-         "Trusted: Lean kernel; Model/C09KV.lean, Model/C09Shape.lean hand transcriptions validated each run (~7k quick comparisons, no tolerated difference); spec side (expand coordinate map, torch reduction shape) is our rendering of torch validated on the enumerated grid. 13 fix: commits are prerequisites (the theorems describe the repaired code).",
-         "DESIGN.md §6 C09"),
- "C14": ("Lean 4 proof over an executable dataflow model of TensorDictModule/TensorDictSequential (symbolic values identify dataflow), incl. _compute_in_and_out_keys, select_subsequence, the select_out_keys hook and the probabilistic decision logic; tied to the source by exhaustive-subset correspondence on random module graphs whose modules compute injective integer hashes",
-         "proof: frame (only out_keys written, '_' never written), in_keys sufficient and determining, last-writer out_keys, backward selection sound on all sequences, forward selection sound under single assignment with a proved counter-example otherwise (recorded finding), select_out_keys hook — kernel-checked for all sequences/environments. Partial: sampling/log-prob values of probabilistic modules are torch's (differential with deterministic distributions).",
-         "Trusted: Lean kernel; hand models Model/C14Seq.lean, Model/C14Prob.lean validated against the library each run; torch distributions. Known findings: select_subsequence(in_keys) on non-single-assignment sequences; tensordict_out with nested out_keys copies siblings. Two fix: commits.",
-         "DESIGN.md §6 C14"),
-}
+# per-property texts live in harness/manifest_texts/Cxx.json (technique, text, note, ref); a property is claimed iff its file exists
+CHECKS = {}
+for _f in sorted((V / "harness" / "manifest_texts").glob("C*.json")):
+    _d = json.loads(_f.read_text())
+    CHECKS[_f.stem] = (_d["technique"], _d["text"], _d["note"], _d["ref"])
 
 REASON_PENDING = "check not built yet in this round (build order in DESIGN.md §10); this is a statement about progress, not that the technique cannot apply"
 
